@@ -858,6 +858,19 @@ def final_attr_value(p, e):
     return hv if (hv is not None and v is not None and root == v and hv != v) else v
 
 
+def opaque_element(*values):
+    """one of the values is (part of) an element of a sequence that was not resolved item by item: the product of two
+    sequences, the items of a generator kept in a tuple ... indexed by the running position of a loop"""
+    for v in values:
+        if not isinstance(v, (Poly, Tup)):
+            continue
+        for a in nf.value_atoms(v):
+            if a[0] == 'idx' and a[1][0] == 'app' and (a[1][1].startswith(('itertools.', 'call:')) or a[1][1] in ('zip', 'enumerate', 'tuple', 'list')) \
+                    and isinstance(a[2], Poly) and any(x[0] == 'iter' for x in nf.value_atoms(a[2])):
+                return True
+    return False
+
+
 class Remap:
     """Route the obligations of a shared rule into another property's clause
     (obligations of clauses that are not mapped are dropped)."""
